@@ -82,6 +82,7 @@ def generic_rules(ctx: CheckContext, p: Program, r, prop: str, extra_modules=())
     from ..rules import argtype, lostupdate, memo, pitfalls, truthy
     funcs = anchor_funcs(p, prop, extra_modules)
     truthy.check_truthiness(ctx, p, r, funcs)
+    truthy.check_zero_compare(ctx, p, r, funcs)
     memo.check_all(ctx, p, r, funcs)
     argtype.check_argument_kinds(ctx, p, r, funcs)
     lostupdate.check_lost_updates(ctx, p, r, funcs)
